@@ -43,8 +43,9 @@ class Schema:
             self.entities[n] = dict(parents=parents, attrs=attrs, tags=tags)
         if r.random() < 0.5:
             self.enums[r.choice(['Color', 'Level'])] = r.sample(['red', 'green', 'a', 'b'], r.randrange(1, 4))
+        self.group = r.random() < 0.5          # an action group "grp" that some actions are members of
         for a in r.sample(['view', 'edit', 'delete', 'share'], r.randrange(1, 4)):
-            self.actions[a] = dict(principals=r.sample(names, r.randrange(1, min(3, len(names)) + 1)),
+            self.actions[a] = dict(member=self.group and r.random() < 0.6, principals=r.sample(names, r.randrange(1, min(3, len(names)) + 1)),
                                    resources=r.sample(names, r.randrange(1, min(3, len(names)) + 1)),
                                    context=self.rrec(2, names, r.randrange(0, 5)))
 
@@ -77,9 +78,11 @@ class Schema:
             out.append(s + ';')
         for n, ids in self.enums.items():
             out.append('entity %s enum [%s];' % (n, ', '.join('"%s"' % i for i in ids)))
+        if self.group:
+            out.append('action "grp";')
         for a, d in self.actions.items():
-            out.append('action "%s" appliesTo { principal: [%s], resource: [%s], context: %s };' %
-                       (a, ', '.join(d['principals']), ', '.join(d['resources']), self.rectext(d['context'])))
+            out.append('action "%s"%s appliesTo { principal: [%s], resource: [%s], context: %s };' %
+                       (a, ' in ["grp"]' if d['member'] else '', ', '.join(d['principals']), ', '.join(d['resources']), self.rectext(d['context'])))
         return '\n'.join(out) + '\n'
 
     # ---- conforming data
@@ -279,6 +282,11 @@ class Schema:
         if opt:
             base, key, t = r.choice(opt)
             guards.append(['has', base, S(key)])
+        # the action hierarchy: membership in a group is decided from the schema when the left side denotes the action, otherwise from types
+        A = ['var', 'action']
+        grp, other = lit(gen.vent('Action', 'grp')), lit(gen.vent('Action', r.choice(sorted(self.actions))))
+        guards += [['in', A, grp], ['in', A, other], ['in', ['if', cond, A, A], grp], ['in', ['if', cond, A, other], grp], ['in', A, ['mkset', grp, other]],
+                   ['in', ['if', cond, A, A], f1], ['in', A, f1], ['eq', A, other], ['in', other, grp], ['isIn', A, S('Action'), grp]]
         if self.enums:
             en = r.choice(sorted(self.enums))
             el = lit(gen.vent(en, r.choice(self.enums[en])))
